@@ -1,9 +1,104 @@
 import Driver.Json
-open Lean Drv
+import Model.Masked
+open Lean Drv Ens Ens.Masked
 
 namespace Drv.C19
 
-def handle (op : String) (_req : Json) : Except String Json :=
-  throw s!"bad-op C19.{op}"
+def errStr : Err → String
+  | .shapeMismatch => "shape-mismatch"
+  | .dataInvalid => "data-invalid"
+  | .assertion => "assertion"
+  | .valueError => "value-error"
+
+def getOptRat (j : Json) : Except String (Option Rat) :=
+  match j with
+  | .null => pure none
+  | v => do let q ← getRat v; pure (some q)
+
+def getOptList {α} (f : Json → Except String α) (req : Json) (k : String) :
+    Except String (Option (List α)) :=
+  match fieldOpt req k with
+  | none => pure none
+  | some j => do let l ← getList f j; pure (some l)
+
+def fvJson : FV → Json := optJson ratJson
+
+def reply {α} (f : α → Json) : Except Err α → Json
+  | .ok a => okJson (f a)
+  | .error e => errJson (errStr e)
+
+def unary : String → Except String (Rat → Rat)
+  | "negative" => pure (fun x => -x)
+  | "square" => pure (fun x => x * x)
+  | "absolute" => pure absR
+  | s => throw s!"bad-ufunc {s}"
+
+def binary : String → Except String (Rat × Rat → Rat)
+  | "add" => pure (fun p => p.1 + p.2)
+  | "subtract" => pure (fun p => p.1 - p.2)
+  | "multiply" => pure (fun p => p.1 * p.2)
+  | s => throw s!"bad-ufunc {s}"
+
+def getPair (j : Json) : Except String (Rat × Rat) := do
+  match ← getArr j with
+  | [a, b] => do pure (← getRat a, ← getRat b)
+  | _ => throw "pair expected"
+
+def handle (op : String) (req : Json) : Except String Json := do
+  match op with
+  | "masked1" =>
+    let f ← unary (← getStr (← field req "ufunc"))
+    let mask ← getList getBool (← field req "mask")
+    let args ← getList getRat (← field req "args")
+    let out ← getOptList getRat req "out"
+    let g ← getList getRat (← field req "g")
+    pure (reply (listJson ratJson) (maskedApply f mask args out g))
+  | "masked2" =>
+    let f ← binary (← getStr (← field req "ufunc"))
+    let mask ← getList getBool (← field req "mask")
+    let args ← getList getPair (← field req "args")
+    let out ← getOptList getRat req "out"
+    let g ← getList getRat (← field req "g")
+    pure (reply (listJson ratJson) (maskedApply f mask args out g))
+  | "entropy" =>
+    -- `lgv[i]` is the value of the logarithm at `p[i]` (consulted only where `p[i] > 0`)
+    let p ← getList getRat (← field req "p")
+    let lgv ← getList getOptRat (← field req "lgv")
+    let table := p.zip lgv
+    let lg : Rat → FV := fun x => match table.find? (fun e => e.1 == x) with
+      | some e => e.2
+      | none => none
+    let g ← getList getOptRat (← field req "g")
+    let withOut ← getBool (← field req "with_out")
+    pure (reply fvJson (if withOut then shannonEntropy lg p g else shannonEntropyNoOut lg p g))
+  | "manhattan" =>
+    let X ← getList (getList getRat) (← field req "X")
+    let ncols ← getNat (← field req "ncols")
+    let y ← getList getRat (← field req "y")
+    let out ← getOptList getRat req "out"
+    pure (reply (listJson ratJson) (manhattan X ncols y out))
+  | "euclidean2" =>
+    -- `sqrtF := id`: the squared distances (the caller applies the correctly rounded sqrt)
+    let X ← getList (getList getRat) (← field req "X")
+    let ncols ← getNat (← field req "ncols")
+    let y ← getList getRat (← field req "y")
+    let out ← getOptList getRat req "out"
+    pure (reply (listJson ratJson) (euclidean id X ncols y out))
+  | "hamming" =>
+    let X ← getList (getList getRat) (← field req "X")
+    let ncols ← getNat (← field req "ncols")
+    let y ← getList getRat (← field req "y")
+    let out ← getOptList getRat req "out"
+    pure (reply (listJson fvJson) (hamming X ncols y out))
+  | "bincount" =>
+    let a ← getList (getList getInt) (← field req "a")
+    let fa ← getNat (← field req "fa")
+    let b ← getList (getList getInt) (← field req "b")
+    let fb ← getNat (← field req "fb")
+    let na ← getNat (← field req "na")
+    let nb ← getNat (← field req "nb")
+    pure (reply (listJson (listJson (listJson (listJson natJson))))
+      (matrixBincount2d a fa b fb na nb (fun _ _ _ _ => 0)))
+  | _ => throw s!"bad-op C19.{op}"
 
 end Drv.C19
